@@ -5,7 +5,7 @@
    ASan/UBSan by harness/props/c09.py.  `_refuted` theorems are the guards that are wrong
    in /repo (findings F3, F4, C09-N1..N6), each next to the repaired guard proved correct. *)
 From Coq Require Import List ZArith Bool.
-From TskVerif Require Import Base.Common C09.Guards C09.GuardProofs.
+From TskVerif Require Import Base.Common C09.Guards C09.GuardProofs C09.MapMutations.
 Import ListNotations.
 Open Scope Z_scope.
 
@@ -85,6 +85,14 @@ Theorem guard_implies_in_bounds_simplifier_init : forall N samples,
   0 <= N -> simplifier_init_samples N samples <> OOB.
 Proof. exact GuardProofs.guard_implies_in_bounds_simplifier_init. Qed.
 
+Theorem guard_implies_in_bounds_simplify_entry : forall md N samples,
+  0 <= N -> simplify_entry md N samples <> OOB.
+Proof. exact GuardProofs.guard_implies_in_bounds_simplify_entry. Qed.
+
+Theorem guard_implies_in_bounds_link_ancestors_entry_repaired : forall md N samples ancestors,
+  0 <= N -> link_ancestors_entry true true md N samples ancestors <> OOB.
+Proof. exact GuardProofs.guard_implies_in_bounds_link_ancestors_entry_repaired. Qed.
+
 Theorem guard_implies_in_bounds_variant_init : forall imp N flags samples,
   0 <= N -> zlen flags = N -> variant_init_samples imp N flags samples <> OOB.
 Proof. exact GuardProofs.guard_implies_in_bounds_variant_init. Qed.
@@ -130,6 +138,10 @@ Proof. exact GuardProofs.keep_rows_without_length_check_refuted. Qed.
 Theorem guard_implies_in_bounds_subset : forall N col nodes,
   0 <= N -> zlen col = N -> table_collection_subset N col nodes <> OOB.
 Proof. exact GuardProofs.guard_implies_in_bounds_subset. Qed.
+
+Theorem guard_implies_in_bounds_subset_entry : forall mig N col nodes,
+  0 <= N -> zlen col = N -> subset_entry mig N col nodes <> OOB.
+Proof. exact GuardProofs.guard_implies_in_bounds_subset_entry. Qed.
 
 Theorem guard_implies_in_bounds_union : forall sn on scol mapping,
   zlen scol = sn -> 0 <= on -> table_collection_union true sn on scol mapping <> OOB.
@@ -195,3 +207,14 @@ Proof. exact GuardProofs.guard_implies_in_bounds_map_mutations. Qed.
 Theorem map_mutations_without_length_check_refuted :
   exists ns g, 0 <= ns /\ map_mutations_entry false ns g None = OOB.
 Proof. exact GuardProofs.map_mutations_without_length_check_refuted. Qed.
+
+(* the unchecked `transitions[num_transitions]` writes of tsk_tree_map_mutations stay inside
+   the buffer of num_samples entries: the Hartigan pass writes at most one transition per
+   sample node — for every tree shape, missing data, internal samples, several roots, and
+   every fixed ancestral state below num_alleles (model: C09/MapMutations.v) *)
+Theorem map_mutations_transitions_bounded : forall K, (1 <= K)%nat ->
+  forall fixed roots,
+  forallb (wfb K) roots = true ->
+  (match fixed with Some a => (a < K)%nat | None => True end) ->
+  (transitions_written K fixed roots <= list_sum (map samples roots))%nat.
+Proof. exact MapMutations.transitions_le_samples. Qed.
